@@ -413,6 +413,7 @@ def run(ctx: Ctx) -> None:
                     forms = [
                         ("position", lambda: call(p), lambda: call(position=p)),
                         ("position+rotation", lambda: call(p, rot), lambda: call(position=p, rotation=rot)),
+                        ("position+rotation", lambda: call(p, rot), lambda: call(rotation=rot, position=p)),  # keywords in the other order
                         ("matrix", lambda: call(other), lambda: call(matrix=other)),
                     ]
                     for fname, pos_form, kw_form in forms:
